@@ -6,11 +6,13 @@ import (
 	"fmt"
 	"math"
 	"sort"
+	"strings"
 	"sync"
 
 	"github.com/unixpickle/model3d/model3d"
 	"verif/harness/choice"
 	"verif/harness/simsched"
+	"verif/harness/wproto"
 )
 
 type tri = model3d.Triangle
@@ -229,6 +231,14 @@ func (h *hist3) newFace(src *choice.Source) *tri {
 	return t
 }
 
+// meshHash3 is an order-free digest of the face values of m.
+func meshHash3(m *model3d.Mesh) string {
+	var l []string
+	m.Iterate(func(t *model3d.Triangle) { l = append(l, fmt.Sprint(*t)) })
+	sort.Strings(l)
+	return wproto.Hash([]byte(strings.Join(l, ";")))
+}
+
 // startMesh3 picks how the history begins.
 func startMesh3(src *choice.Source, h *hist3) {
 	kind := src.Intn(7)
@@ -263,7 +273,19 @@ func startMesh3(src *choice.Source, h *hist3) {
 		m := model3d.NewMeshIcosphere(model3d.XYZ(0, 0, 0), 1, 1+src.Intn(2))
 		k := 0
 		lim := 1 + src.Intn(12)
-		h.real = m.EliminateEdges(func(tmp *model3d.Mesh, seg model3d.Segment) bool { k++; return k%3 == 0 && k < 3*lim })
+		// EliminateEdges draws its segments from a Go map, so its output is not a
+		// function of its input.  The simulator cannot own that order; a replay
+		// therefore repeats the call until the output recorded with the finding
+		// reappears (each call is an independent draw of the map order).
+		h.st.MapDep = "EliminateEdges picks segments in the iteration order of a Go map"
+		for attempt := 0; ; attempt++ {
+			k = 0
+			h.real = m.EliminateEdges(func(tmp *model3d.Mesh, seg model3d.Segment) bool { k++; return k%3 == 0 && k < 3*lim })
+			h.st.StartHash = meshHash3(h.real)
+			if h.st.WantStart == "" || h.st.StartHash == h.st.WantStart || attempt >= 400 {
+				break
+			}
+		}
 		h.log("EliminateEdges")
 	case 5: // dual contouring with Repair (mapInPlace)
 		s := model3d.JoinedSolid{&model3d.Sphere{Center: model3d.XYZ(0, 0, 0), Radius: 0.5}, &model3d.Sphere{Center: model3d.XYZ(0.72, 0, 0), Radius: 0.3}}
